@@ -42,7 +42,10 @@ func main() {
 			}
 			v := p.wireCheck(pr)
 			counts[v.Status]++
-			fmt.Printf("%-8s %s %s\n", v.Status, v.Type, v.Detail)
+			fmt.Printf("%-8s %s %s [fields: %d compared, %d skipped, %d issues]\n", v.Status, v.Type, v.Detail, v.FieldCompared, v.FieldSkipped, len(v.FieldIssues))
+			for _, is := range v.FieldIssues {
+				fmt.Println("    FIELD", is)
+			}
 			if verbose {
 				for _, ver := range v.Points {
 					fmt.Printf("    v%d: %s\n", ver, v.Shapes[ver])
